@@ -41,6 +41,7 @@ def instances(ctx, mask_only=False):
         inst["offset"] = r2.choice([0, 0, 0, 1, 2])
         inst["knorm"] = r2.random() < 0.2
         inst["adj"] = r2.choice(["float", "float", "int", "bool", "float32"])
+        inst["fmt"] = r2.choice(["csr", "csr", "lil", "csc", "coo"])
         if inst["offset"] >= inst["r"] and r2.random() < 0.7:
             inst["r"] = min(4, inst["offset"] + r2.choice([1, 2]))
         if all(l in excluded for tr in trees for l in tr["lab"]) and not mask:
